@@ -167,7 +167,8 @@ int parse_instruction_6502(AsmContext *asm_context, char *instr)
   int op;
   int instr_enum;
   int offset = 0;
-  int num;
+  int num = 0;
+  int have_operand = 0;
   int size;
   int bytes;
   int i;
@@ -246,6 +247,9 @@ int parse_instruction_6502(AsmContext *asm_context, char *instr)
           return -1;
         }
 
+
+        have_operand = 1;
+
         if (num < -128 || num > 0xff)
         {
           print_error_range(asm_context,
@@ -265,6 +269,9 @@ int parse_instruction_6502(AsmContext *asm_context, char *instr)
         {
           return -1;
         }
+
+
+        have_operand = 1;
 
         if (asm_context->pass == 2)
         {
@@ -296,6 +303,9 @@ int parse_instruction_6502(AsmContext *asm_context, char *instr)
           return -1;
         }
 
+
+        have_operand = 1;
+
         if (num < -128 || num > 0xff)
         {
           print_error_range(asm_context,
@@ -314,6 +324,9 @@ int parse_instruction_6502(AsmContext *asm_context, char *instr)
         {
           return -1;
         }
+
+
+        have_operand = 1;
 
         if (GET_TOKEN() == TOKEN_EOL) { NEED_OPERAND(); }
 
@@ -390,6 +403,9 @@ int parse_instruction_6502(AsmContext *asm_context, char *instr)
         {
           return -1;
         }
+
+
+        have_operand = 1;
 
         if (num < 0 || num > 0xffff)
         {
@@ -499,6 +515,14 @@ int parse_instruction_6502(AsmContext *asm_context, char *instr)
         }
       }
     }
+  }
+
+  // An addressing mode that carries an operand needs one (bne without a
+  // target would otherwise encode whatever num happens to hold).
+  if (op_bytes[op] > 1 && have_operand == 0)
+  {
+    print_error_opcount(asm_context, instr);
+    return -1;
   }
 
   // find opcode in table
